@@ -194,17 +194,21 @@ def parse_version_payload(versionpayload_: bytes) -> dict:
     }
     # parse compact size uint varint for user_agent_bytes
     user_agent_byte = versionpayload_[80]
+    user_agent_start = 81
     if user_agent_byte < 253:
         user_agent_len = user_agent_byte
         parsed_payload["user_agent_bytes"] = user_agent_len
     elif user_agent_byte == 253:
         user_agent_len = int.from_bytes(versionpayload_[81:83], "little")
+        user_agent_start = 83
         parsed_payload["user_agent_bytes"] = user_agent_len
     elif user_agent_byte == 254:
         user_agent_len = int.from_bytes(versionpayload_[81:85], "little")
+        user_agent_start = 85
         parsed_payload["user_agent_bytes"] = user_agent_len
     elif user_agent_byte == 255:
         user_agent_len = int.from_bytes(versionpayload_[81:89], "little")
+        user_agent_start = 89
         parsed_payload["user_agent_bytes"] = user_agent_len
     # parse rest of payload
     if user_agent_len == 0:
@@ -221,16 +225,16 @@ def parse_version_payload(versionpayload_: bytes) -> dict:
                 f"parse error, data longer than expected: {len(versionpayload_)}"
             )
     else:
-        parsed_payload["user_agent"] = versionpayload_[81 : 81 + user_agent_len]
+        parsed_payload["user_agent"] = versionpayload_[user_agent_start : user_agent_start + user_agent_len]
         parsed_payload["start_height"] = int.from_bytes(
-            versionpayload_[81 + user_agent_len : 81 + user_agent_len + 4], "little"
+            versionpayload_[user_agent_start + user_agent_len : user_agent_start + user_agent_len + 4], "little"
         )
-        if versionpayload_[81 + user_agent_len + 4] == 1:
+        if versionpayload_[user_agent_start + user_agent_len + 4] == 1:
             parsed_payload["relay"] = True
-        elif versionpayload_[81 + user_agent_len + 4] == 0:
+        elif versionpayload_[user_agent_start + user_agent_len + 4] == 0:
             parsed_payload["relay"] = False
 
-        if versionpayload_[81 + user_agent_len + 4 + 1 :]:
+        if versionpayload_[user_agent_start + user_agent_len + 4 + 1 :]:
             raise ValueError(
                 f"parse error, data longer than expected: {len(versionpayload_)}"
             )
